@@ -62,9 +62,10 @@ class Sched:
 class ILock(ReadWriteLock):
     """pymap's asyncio read-write lock with a scheduler point before every acquisition"""
 
-    def __init__(self, sched, tag):
+    def __init__(self, sched, tag, exit_points=False):
         self.s = sched
         self.tag = tag
+        self.exit_points = exit_points      # also park after the write lock has been let go (a lock whose release can yield, as on a thread-based subsystem)
         self.real = _AsyncioReadWriteLock()
 
     @property
@@ -82,12 +83,15 @@ class ILock(ReadWriteLock):
         await self.s.point(f'{self.tag}:w')
         async with self.real.write_lock():
             yield
+        if self.exit_points:
+            await self.s.point(f'{self.tag}:w-out')
 
 
 class ISubsystem(_Subsystem):
-    def __init__(self, sched):
+    def __init__(self, sched, exit_points=False):
         self.s = sched
         self.n = 0
+        self.exit_points = exit_points
 
     @property
     def subsystem(self):
@@ -98,7 +102,7 @@ class ISubsystem(_Subsystem):
 
     def new_rwlock(self):
         self.n += 1
-        return ILock(self.s, f'L{self.n}')
+        return ILock(self.s, f'L{self.n}', self.exit_points)
 
     def new_event(self):
         return _AsyncioEvent()
